@@ -10,18 +10,12 @@ PROP_FILES = ["props/Properties_C56.v"]
 
 
 def findings_enabled(which):
-    """The regimes of the two recorded findings are generated when the finding is listed in known_findings.json (then reported
-    as KNOWN-FINDING) or when C56_FINDINGS=1:
+    """Both recorded findings (known_findings.json, matched by the runner on the predicate's why-prefix) are always generated:
       bump-underpays-after-change-dropped   explicit feerate, the replacement drops the change output and misses BIP125 rule 4
       bump-underpays-with-smaller-outputs   `outputs` option with fewer/smaller outputs and an estimated feerate: the replacement
-                                            can pay less than the original fee (BIP125 rule 3)"""
-    if os.environ.get("C56_FINDINGS") == "1":
-        return True
-    try:
-        return any(f.get("property") == "C56" and f.get("status", "open") == "open" and
-                   which in f.get("why_prefix", "") for f in core.known_findings())
-    except Exception:
-        return False
+                                            can pay less than the original fee (BIP125 rule 3)
+    Their replay cases are in corpus/C56/fee_bump.findings.case (run first)."""
+    return True
 
 
 RULE = ("cases: bump S <setup> R <request> B <bump options>: on the C41 scenarios (real descriptor wallet on a real regtest node) "
@@ -58,8 +52,7 @@ def bump_variants(rng, S, req_rate, nouts, own_change_expected):
     for k in range(0, nouts + 2):
         if rng.random() < 0.7:
             v.append("oci=%d" % k + (" fr=%d" % (r + rng.choice([150, 5000])) if rng.random() < 0.5 else ""))
-    # replaced outputs.  Without an explicit feerate only output sets that are no smaller than the original's (all kept, one
-    # added) are generated by default: fewer outputs + estimated feerate is the regime of a recorded finding.
+    # replaced outputs (fewer outputs + estimated feerate is the regime of a recorded finding)
     allk = ",".join("k%d" % i for i in range(nouts))
     hi = " fr=%d" % (3 * r + 3000)
     v.append("out=%s,nb%d" % (allk, rng.choice([294, 293, 5000])))
